@@ -78,6 +78,15 @@ progs!(h8 {
     la(y, Dual(d.0 + w)) <-- lb(x, d), e(x, y, w);
     lb(y, Dual(d.0 + w)) <-- la(x, d), e(x, y, w);
 });
+// H10: the lattice is read by the third body clause and written by the head: the row just read can be the row updated
+// (self loop) or a row another worker is reading
+progs!(h10 {
+    relation s(i32, u32);
+    relation e(i32, i32);
+    lattice sp(i32, Dual<u32>);
+    sp(x, Dual(*w)) <-- s(x, w);
+    sp(z, Dual(d.0 + 1)) <-- e(x, y), e(y, z), sp(x, d);
+});
 // H6: binary eqrel in parallel: two workers insert pairs that join classes
 progs!(h6 {
     relation s(i32, i32);
@@ -168,6 +177,50 @@ fn main() {
             let body = move || -> String {
                 macro_rules! go { ($m:ident) => {{ let mut p = h8::$m::P::default(); for t in load { p.e.push(t); } p.run();
                     fmt_rel("la", p.la.iter().map(|t| { let t = t.read().unwrap(); (t.0, t.1 .0) }).collect::<Vec<_>>()) + &fmt_rel("lb", p.lb.iter().map(|t| { let t = t.read().unwrap(); (t.0, t.1 .0) }).collect::<Vec<_>>()) }}; }
+                if variant == 0 { go!(par) } else { go!(irp) }
+            };
+            explore_harness(&mut rep, &prop, &hname, w, klat, cap, &body, &expected);
+        }
+    }
+    // H9: run; add facts; run again (C13 under schedules): transitive closure, and a lattice feeding an aggregate
+    {
+        let (load, more) = ([(0, 1), (0, 2), (1, 3), (2, 3)], [(3, 4), (4, 0)]);
+        let expected = { let mut p = h1::ser::P::default(); for t in load { p.edge.push(t); } p.run(); for t in more { p.edge.push(t); } p.run(); fmt_rel("path", p.path.clone()) };
+        for (variant, label) in [(0, "par"), (1, "par+irp")] {
+            let hname = format!("H9-rerun-tc[{}]", label);
+            if std::env::var("VSCHED_ONLY").ok().map_or(false, |o| o != hname) { continue; }
+            let body = move || -> String {
+                macro_rules! go { ($m:ident) => {{ let mut p = h1::$m::P::default(); for t in load { p.edge.push(t); } p.run(); for t in more { p.edge.push(t); } p.run();
+                    fmt_rel("path", p.path.iter().map(|t| t.clone()).collect::<Vec<_>>()) }}; }
+                if variant == 0 { go!(par) } else { go!(irp) }
+            };
+            explore_harness(&mut rep, &prop, &hname, &[1, 2], klat, cap, &body, &expected);
+        }
+    }
+    {
+        let (load, more) = ([(0, 1u32), (0, 2), (1, 1)], [(0, 3u32), (2, 5)]);
+        let expected = { let mut p = h4::ser::P::default(); for t in load { p.e.push(t); } p.run(); for t in more { p.e.push(t); } p.run();
+            fmt_rel("m", p.m.iter().map(|t| t.clone()).collect::<Vec<_>>()) + &fmt_rel("c", p.c.iter().map(|t| t.clone()).collect::<Vec<_>>()) };
+        for (variant, label) in [(0, "par"), (1, "par+irp")] {
+            let hname = format!("H9-rerun-lattice-aggregate[{}]", label);
+            if std::env::var("VSCHED_ONLY").ok().map_or(false, |o| o != hname) { continue; }
+            let body = move || -> String {
+                macro_rules! go { ($m:ident) => {{ let mut p = h4::$m::P::default(); for t in load { p.e.push(t); } p.run(); for t in more { p.e.push(t); } p.run();
+                    fmt_rel("m", p.m.iter().map(|t| t.read().unwrap().clone()).collect::<Vec<_>>()) + &fmt_rel("c", p.c.iter().map(|t| t.clone()).collect::<Vec<_>>()) }}; }
+                if variant == 0 { go!(par) } else { go!(irp) }
+            };
+            explore_harness(&mut rep, &prop, &hname, &[1, 2], klat, cap, &body, &expected);
+        }
+    }
+    {
+        let (ls, le) = ([(0, 5u32), (1, 9)], [(0, 0), (0, 1), (1, 0), (1, 2)]);
+        let expected = { let mut p = h10::ser::P::default(); for t in ls { p.s.push(t); } for t in le { p.e.push(t); } p.run(); fmt_rel("sp", p.sp.iter().map(|t| (t.0, t.1 .0)).collect::<Vec<_>>()) };
+        for (variant, label) in [(0, "par"), (1, "par+irp")] {
+            let hname = format!("H10-lattice-third-clause[{}]", label);
+            if std::env::var("VSCHED_ONLY").ok().map_or(false, |o| o != hname) { continue; }
+            let body = move || -> String {
+                macro_rules! go { ($m:ident) => {{ let mut p = h10::$m::P::default(); for t in ls { p.s.push(t); } for t in le { p.e.push(t); } p.run();
+                    fmt_rel("sp", p.sp.iter().map(|t| { let t = t.read().unwrap(); (t.0, t.1 .0) }).collect::<Vec<_>>()) }}; }
                 if variant == 0 { go!(par) } else { go!(irp) }
             };
             explore_harness(&mut rep, &prop, &hname, w, klat, cap, &body, &expected);
